@@ -15,7 +15,7 @@ RULE_TEXT = "obligation = (rule, constant / default / (shape, type)); evaluation
 
 
 def run(ctx) -> None:
-    ctx.rules_run += ["K1", "K2", "K3", "J1", "Q4", "Q2", "J4", "J5"]
+    ctx.rules_run += ["K1", "K2", "K3", "J1", "Q4", "Q2", "J4", "J5", "J6"]
     rule_Q4(ctx)
     rule_Q2(ctx)      # the JSON emitters must not push wide integers through float
     jsonrules.rule_J4(ctx)
@@ -24,3 +24,4 @@ def run(ctx) -> None:
     jsonrules.rule_K2(ctx)
     jsonrules.rule_K3(ctx)
     jsonrules.rule_J1(ctx)
+    jsonrules.rule_J6(ctx)   # reference JSON always has text keys
